@@ -1,3 +1,4 @@
+mod capi_cases;
 mod errtab;
 mod ops;
 mod seccomp;
